@@ -153,7 +153,7 @@ class RF24:
         while force_retry and not result:
             result = self.resend(send_only)
             force_retry -= 1
-        if self._status & 0x60 == 0x60 and not send_only:
+        if result is True and self._status & 0x60 == 0x60 and not send_only:
             result = self.read()
         return result
 
